@@ -317,6 +317,29 @@ func runC16(c C16Case) string {
 				}
 			}
 		}
+		// (2e) an Encoder with EncodeSortMaps writes binary deterministically too
+		{
+			var outs [2][]byte
+			for k := range outs {
+				var sb bytes.Buffer
+				se := ion.NewEncoderOpts(ion.NewBinaryWriter(&sb), ion.EncodeSortMaps)
+				err := se.Encode(arg)
+				if err == nil {
+					err = se.Finish()
+				}
+				if err != nil {
+					return fmt.Sprintf("NewEncoderOpts(binary writer, EncodeSortMaps).Encode fails: %v", err) + desc()
+				}
+				outs[k] = sb.Bytes()
+			}
+			if !bytes.Equal(outs[0], outs[1]) {
+				return fmt.Sprintf("an Encoder with EncodeSortMaps is not deterministic in binary:\n% x\n% x", clip(outs[0], 200), clip(outs[1], 200)) + desc()
+			}
+			r, perr := refbin.Decode(outs[0], refbin.Options{RequireIVM: true})
+			if perr != nil || len(r.Values) != 1 || model.Diff(sortedDeep(want), sortedDeep(r.Values[0])) != "" {
+				return fmt.Sprintf("an Encoder with EncodeSortMaps wrote something else (%v)\nbytes: % x", perr, clip(outs[0], 300)) + desc()
+			}
+		}
 		// (3) Unmarshal of each output into the same type gives an equal value
 		for i, data := range [][]byte{text1, bin, binLST} {
 			format := []string{"text", "binary", "binaryLST"}[i]
